@@ -25,6 +25,9 @@ pub enum H {
     StopRun { line: String, intr: Option<u64> },
     /// a file is put on the SimDisk and loaded
     Load { name: String, lines: Vec<String> },
+    /// RUN, and after k instructions the host loads file G by itself (set_listing while the old
+    /// program is running or waiting for input)
+    HostLoad { k: u64 },
 }
 
 #[derive(Clone)]
@@ -141,6 +144,44 @@ impl Case for C04Case {
                         let ran_file = w.events[o.ev_start..o.ev_end].iter().any(|e| matches!(e, Ev::RunFile(_)));
                         edited_since_stop = !ran_file;
                     }
+                }
+                H::HostLoad { k } => {
+                    let io = LineIo {
+                        replies: self.replies[reply_pos.min(self.replies.len())..].to_vec(),
+                        max_instr: 3000,
+                        host_load: Some((*k, "G".into(), false)),
+                        ..Default::default()
+                    };
+                    let o = w.line("RUN", &io);
+                    let evs = &w.events[o.ev_start..o.ev_end];
+                    reply_pos += replies_used(evs);
+                    // from the load on nothing of the old program may run
+                    if let Some(pos) = evs.iter().position(|e| matches!(e, Ev::Load(n) if n.starts_with("(host)"))) {
+                        w.stats.bump("fault.edit");
+                        for e in &evs[pos + 1..] {
+                            let ran = match e {
+                                Ev::Print(s) if is_ready_print(s) => None,
+                                Ev::Print(s) => Some(format!("printed {:?}", s)),
+                                Ev::Input(p, _) => Some(format!("asked for input {:?}", p)),
+                                Ev::Errors(es) => Some(format!("reported {:?}", es.iter().map(|x| x.text.clone()).collect::<Vec<_>>())),
+                                _ => None,
+                            };
+                            if let Some(what) = ran {
+                                if fail.is_none() && w.fatal.is_none() {
+                                    fail = Some(Violation {
+                                        key: "C04:host-load:old-program-kept-running".into(),
+                                        detail: format!("after set_listing() arrived {} instructions into the run, the interpreter still {}", k, what),
+                                    });
+                                }
+                                break;
+                            }
+                        }
+                        edited_since_stop = true;
+                    } else {
+                        // the run was over before the load was due: an ordinary run
+                        edited_since_stop = false;
+                    }
+                    stopped_once = true;
                 }
                 H::Load { name, lines } => {
                     w.disk.insert(name.clone(), lines.clone());
@@ -317,6 +358,7 @@ impl Case for C04Case {
                 H::StopRun { line, intr: Some(k) } => Json::Str(format!("type {:?}, Ctrl-C after {} instructions", line, k)),
                 H::StopRun { line, intr: None } => Json::Str(format!("type {:?} and let it stop by itself", line)),
                 H::Load { name, lines } => obj().set("load_file", name.clone()).set("lines", lines.clone()).build(),
+                H::HostLoad { k } => Json::Str(format!("type \"RUN\"; {} instructions later the host calls set_listing(file G) by itself", k)),
             })
             .collect();
         obj()
@@ -490,6 +532,10 @@ impl Property for C04 {
                 });
                 continue;
             }
+            if rng.pct(3) {
+                history.push(H::HostLoad { k: rng.below(120) });
+                continue;
+            }
             match rng.below(10) {
                 0..=6 => history.push(H::Line {
                     text: edit_line(rng, &prog, &cfg),
@@ -594,7 +640,7 @@ impl Property for C04 {
         }
     }
     fn rule(&self) -> &'static str {
-        "one evaluation = a generated base program, a history of 1-8 operations (insert/replace line, bare number of a present/absent line, DELETE in four range forms, RENUM with valid and invalid triples, NEW, LOAD from the SimDisk, harmless direct statements, a RUN stopped by Ctrl-C at a seeded instruction / STOP / END / error / a DELETE, NEW, LOAD \"file\" or RUN \"file\" statement of the program itself) and a final probe (RUN, RUN n, CONT, RETURN, NEXT, NEXT v, a direct call of a user function the program defines) executed on the history-laden runtime and on a fresh twin fed get_listing() text, entropy aligned; distinct = distinct API/event log fingerprint; non-trivial = at least one effective edit and more than 10 VM instructions"
+        "one evaluation = a generated base program, a history of 1-8 operations (insert/replace line, bare number of a present/absent line, DELETE in four range forms, RENUM with valid and invalid triples, NEW, LOAD from the SimDisk, a host-initiated load (set_listing) arriving k instructions into a run, harmless direct statements, a RUN stopped by Ctrl-C at a seeded instruction / STOP / END / error / a DELETE, NEW, LOAD \"file\" or RUN \"file\" statement of the program itself) and a final probe (RUN, RUN n, CONT, RETURN, NEXT, NEXT v, a direct call of a user function the program defines) executed on the history-laden runtime and on a fresh twin fed get_listing() text, entropy aligned; distinct = distinct API/event log fingerprint; non-trivial = at least one effective edit and more than 10 VM instructions"
     }
     fn assumptions(&self) -> Vec<&'static str> {
         vec![
@@ -614,6 +660,7 @@ impl Property for C04 {
             "c04.harmless_direct_statement",
             "c04.fn_probe_compared",
             "c04.program_edited_itself",
+            "fault.host_load_during_run",
         ]
     }
 }
